@@ -79,6 +79,62 @@ func ZZ_C11_AckRate() {
 	}
 }
 
+// The same through the event entry point: from an arbitrary slot state whose
+// factor is up to date, ANY ack/loss event (0..2 acked, 0..2 lost packets, at
+// the same or a later second) leaves the factor equal to the documented
+// function of the updated slots - also when the event carries no loss.
+//
+//verif:harness kind=api bound=pre-state:2-live-slots-below-the-50-sample-threshold,event:0..2-acked,0..2-lost,same-or-next-second
+func ZZ_C11_AckRateAfterEvent() {
+	b := NewBrutalSender(verifUint64("bps", 65536, 12_500_000_000), false)
+	b.SetRTTStatsProvider(&zzRTT{})
+	prev := int64(1000)
+	// two live slots with few samples: below the 50-sample threshold the factor is 1, so this state is consistent
+	var a0, l0 uint64
+	for i := range b.pktInfoSlots {
+		if i >= 2 {
+			b.pktInfoSlots[i] = pktInfo{Timestamp: 1, AckCount: 77, LossCount: 99}
+			continue
+		}
+		b.pktInfoSlots[i] = pktInfo{
+			Timestamp: prev - int64(i),
+			AckCount:  verifUint64("ack", 0, 49),
+			LossCount: verifUint64("loss", 0, 49),
+		}
+		a0 += b.pktInfoSlots[i].AckCount
+		l0 += b.pktInfoSlots[i].LossCount
+	}
+	verifAssume(a0+l0 < minSampleCount)
+	b.ackRate = 1
+	cur := prev + int64(verifChoice("secondsLater", 2))
+	acked := make([]congestion.AckedPacketInfo, verifChoice("acked", 3))
+	lost := make([]congestion.LostPacketInfo, verifChoice("lost", 3))
+	if len(acked)+len(lost) == 0 {
+		return
+	}
+	b.OnCongestionEventEx(0, monotime.Time(cur*int64(time.Second)), acked, lost)
+	var A, L uint64
+	for _, s := range b.pktInfoSlots {
+		if s.Timestamp >= cur-pktInfoSlotCount {
+			A += s.AckCount
+			L += s.LossCount
+		}
+	}
+	if A+L < minSampleCount {
+		verifCover("few-samples")
+		verifAssert(b.ackRate == 1, "after an event the factor is 1 below 50 samples")
+		return
+	}
+	// the event lifted the window to 50 samples or more: the losses seen so far count now
+	verifCover("threshold-crossed")
+	want := float64(A) / float64(A+L)
+	if want < 0.8 {
+		verifAssert(b.ackRate == 0.8, "after an event the factor clamps at 0.8")
+	} else {
+		verifAssert(b.ackRate == want, "after an event the factor equals acked/(acked+lost) over the live slots")
+	}
+}
+
 // The congestion window is never below one datagram, whatever RTT and factor.
 //
 //verif:harness kind=api bound=ackRate∈[0.8,1],one-step-from-arbitrary-state
